@@ -220,24 +220,28 @@ package gopacket
 //@   props C17
 //@   requires wfE(a) && wfE(b)
 //@   ensures result == (a.typ == b.typ && seqeq(a.raw, a.len, b.raw, b.len))
+
 func verifLemmaEqIff(a, b Endpoint) bool { return a == b }
 
 //@ func verifLemmaFlowEqIff(f Flow, g Flow) bool
 //@   props C17
 //@   requires wfF(f) && wfF(g)
 //@   ensures result == (f.typ == g.typ && seqeq(f.src, f.slen, g.src, g.slen) && seqeq(f.dst, f.dlen, g.dst, g.dlen))
+
 func verifLemmaFlowEqIff(f, g Flow) bool { return f == g }
 
 //@ func verifLemmaRevRev(f Flow) bool
 //@   props C17
 //@   requires wfF(f)
 //@   ensures result
+
 func verifLemmaRevRev(f Flow) bool { return f.Reverse().Reverse() == f }
 
 //@ func verifLemmaSplitJoin(f Flow) bool
 //@   props C17
 //@   requires wfF(f)
 //@   ensures result
+
 func verifLemmaSplitJoin(f Flow) bool {
 	s, d := f.Endpoints()
 	g, err := FlowFromEndpoints(s, d)
@@ -248,12 +252,14 @@ func verifLemmaSplitJoin(f Flow) bool {
 //@   props C17
 //@   requires wfF(f)
 //@   ensures result
+
 func verifLemmaHashSym(f Flow) bool { return f.FastHash() == f.Reverse().FastHash() }
 
 //@ func verifLemmaNewFlowEndpoints(t EndpointType, s []byte, d []byte) bool
 //@   props C17
 //@   requires len(s) <= 16 && len(d) <= 16
 //@   ensures result
+
 func verifLemmaNewFlowEndpoints(t EndpointType, s, d []byte) bool {
 	a, b := NewFlow(t, s, d).Endpoints()
 	return a == NewEndpoint(t, s) && b == NewEndpoint(t, d)
@@ -263,6 +269,7 @@ func verifLemmaNewFlowEndpoints(t EndpointType, s, d []byte) bool {
 //@   props C17
 //@   requires len(s) <= 16 && len(d) <= 16
 //@   ensures result
+
 func verifLemmaReverseNewFlow(t EndpointType, s, d []byte) bool {
 	return NewFlow(t, s, d).Reverse() == NewFlow(t, d, s)
 }
@@ -271,6 +278,7 @@ func verifLemmaReverseNewFlow(t EndpointType, s, d []byte) bool {
 //@   props C17
 //@   requires wfE(a) && wfE(b) && wfE(c)
 //@   ensures irrefl && trans && total
+
 func verifLemmaOrder(a, b, c Endpoint) (irrefl, trans, total bool) {
 	irrefl = !a.LessThan(a)
 	trans = !(a.LessThan(b) && b.LessThan(c)) || a.LessThan(c)
